@@ -208,7 +208,11 @@ Record obs := { o_entry : entry; o_signer : N; o_assoc : list N; o_body_ok : boo
 Inductive case :=
 | CExp (d : Z) (impl : option Z) (back : Z)             (* ExpTimeFromDuration d; ExpTimeToDuration of the result *)
 | CExt (c : cfg) (signers : list signer) (gen_err : bool) (now : Z) (s : segment)
-       (ingress egress : N) (peers : list N) (macs : table) (impl : option obs).
+       (ingress egress : N) (peers : list N) (macs : table) (impl : option obs)
+(** audit follow-up: as [CExt], plus the identities of the associated data the signer was given, in order
+    (0 = the segment info, otherwise the identity number of a HeaderAndBody / Signature byte string) *)
+| CExt2 (c : cfg) (signers : list signer) (gen_err : bool) (now : Z) (s : segment)
+        (ingress egress : N) (peers : list N) (macs : table) (impl : option obs) (impl_ids : list N).
 
 Definition peer_eqb (a b : peer) : bool :=
   ia_eqb (p_ia a) (p_ia b) && (p_rif a =? p_rif b)%N && (p_mtu a =? p_mtu b)%N && (p_in a =? p_in b)%N
@@ -267,6 +271,21 @@ Definition oracle (c : cfg) (signers : list signer) (now : Z) (s : segment)
                          && (p_exp p =? e_exp e) && (p_eg p =? e_eg e)%N) (e_peers e)
   end.
 
+(** the associated data of a signed input as a list of identities: the segment
+    info (0), then HeaderAndBody and Signature of every earlier entry, in order *)
+Definition assoc_ids (prev : list (N * N)) : list N :=
+  0%N :: flat_map (fun p => [fst p; snd p]) prev.
+Definition ids_agree (r : result) (o : option obs) (ids : list N) : bool :=
+  match r, o with
+  | Ok _ _ sg, Some _ => list_eqb N.eqb (assoc_ids (sg_prev sg)) ids
+  | _, _ => true
+  end.
+Definition ids_oracle (s : segment) (o : option obs) (ids : list N) : bool :=
+  match o with
+  | Some _ => list_eqb N.eqb (assoc_ids (map snd (s_entries s))) ids
+  | None => true
+  end.
+
 Definition check (x : case) : N :=
   match x with
   | CExp d impl back =>
@@ -278,12 +297,22 @@ Definition check (x : case) : N :=
     let r := extend (table_mac macs) c signers gen_err now s ingress egress peers in
     Check.verdict (agree r impl (length (s_entries s)))
                   (oracle c signers now s ingress egress macs impl)
+  | CExt2 c signers gen_err now s ingress egress peers macs impl ids =>
+    let r := extend (table_mac macs) c signers gen_err now s ingress egress peers in
+    Check.verdict (agree r impl (length (s_entries s)) && ids_agree r impl ids)
+                  (oracle c signers now s ingress egress macs impl && ids_oracle s impl ids)
   end.
 
 Definition diag (x : case) : option (entry * N) * option Z :=
   match x with
   | CExp d _ _ => (None, exp_from_dur d)
   | CExt c signers gen_err now s ingress egress peers macs _ =>
+    match extend (table_mac macs) c signers gen_err now s ingress egress peers with
+    | Ok e idx _ => (Some (e, idx), None)
+    | Err _ => (None, Some 0)
+    | MacMiss => (None, Some (-1))
+    end
+  | CExt2 c signers gen_err now s ingress egress peers macs _ _ =>
     match extend (table_mac macs) c signers gen_err now s ingress egress peers with
     | Ok e idx _ => (Some (e, idx), None)
     | Err _ => (None, Some 0)
